@@ -7,7 +7,7 @@
    archetype start, archetype end by return / error / panic, detector start, poll) from EVERY state in which the
    detector's loop is running.  A poll is atomic at the instant the monitor serves it (or the failure is noticed);
    that a poll completes within timeout + one pull interval is the runtime's behaviour and is only sampled. *)
-From PGV Require Import C19.Model C19.Proofs.
+From PGV Require Import C19.Model C19.Proofs C19.ProofsHist.
 From Coq Require Import Lia.
 
 (* ---- complete, one poll: unless the dial (if one was needed) succeeded AND the monitor answered "alive", the tick sets a
@@ -68,6 +68,41 @@ Theorem read_pure : forall x, read_delay x <= 1 /\ (read_delay x = 1 <-> read_va
 Proof. exact read_delay_lemma. Qed.
 Print Assumptions read_pure.
 
+(* ---- no_delay_after_first_poll (history level of "never delays a critical section by more than one polling interval"):
+   once the loop of a running detector has ticked — whatever happened before (a) and whatever happens after (b), in any
+   order — a read neither aborts nor blocks; before the first tick every read blocks exactly one interval and aborts *)
+Theorem no_delay_after_first_poll : forall a b s,
+  det_on s = true ->
+  read (run s (a ++ EPoll :: b)) <> VAbort /\ read_delay (d (run s (a ++ EPoll :: b))) = 0.
+Proof. exact no_delay_after_first_poll_lemma. Qed.
+Print Assumptions no_delay_after_first_poll.
+
+Theorem uninit_until_first_poll : forall es s,
+  d_state (d s) = DUninit -> Forall (fun e => e <> EPoll) es ->
+  read (run s es) = VAbort /\ read_delay (d (run s es)) = 1.
+Proof. exact uninit_until_first_poll_lemma. Qed.
+Print Assumptions uninit_until_first_poll.
+
+(* ---- report_changes_only_at_polls ("keeps doing so" / "never changes what it reports", frame form): no event other than
+   a tick of the detector's own loop — monitor start/close/crash, partition, archetype start/end, detector start — changes
+   the detector's state or what a read returns; and a detector whose loop is not running is frozen even across polls *)
+Theorem report_changes_only_at_polls : forall es s,
+  Forall (fun e => e <> EPoll) es -> d (run s es) = d s /\ read (run s es) = read s.
+Proof. exact report_stable_lemma. Qed.
+Print Assumptions report_changes_only_at_polls.
+
+Theorem detector_off_is_frozen : forall es s,
+  det_on s = false -> ~ In EDetStart es -> d (run s es) = d s /\ det_on (run s es) = false.
+Proof. exact off_frozen_lemma. Qed.
+Print Assumptions detector_off_is_frozen.
+
+(* ---- alive_report_sound: a poll never produces "alive" for a target that is down at the instant of the poll *)
+Theorem alive_report_sound : forall s,
+  det_on s = true -> read (step s EPoll) = VFalse ->
+  serving s = true /\ net_up s = true /\ astate s = Some AAlive.
+Proof. exact alive_report_sound_lemma. Qed.
+Print Assumptions alive_report_sound.
+
 (* ---- non-vacuity: concrete executions meet the hypotheses *)
 Example c19_complete_nonvacuous :
   let s := run sys_init [EMonStart; EArchStart; EDetStart; EPoll] in
@@ -83,4 +118,11 @@ Example c19_accurate_nonvacuous :
   let es := [EPoll; EMonStart; EPoll; EPoll; EMonClose; EPoll] in
   det_on s = true /\ need s = 3 /\ forallb upl (states s (firstn 4 es)) = true /\ forallb tup (states s es) = true /\
   map (fun k => read (run s (firstn k es))) [1; 3; 4; 6] = [VTrue; VTrue; VFalse; VFalse].
+Proof. vm_compute. repeat split; reflexivity. Qed.
+
+Example c19_no_delay_nonvacuous :
+  let s := run sys_init [EMonStart; EDetStart] in
+  det_on s = true /\ read s = VAbort /\ read_delay (d s) = 1 /\
+  map (fun es => read (run s es)) [[EArchStart; ENetDown]; [EArchStart; EPoll]; [EPoll; EArchStart]; [EPoll; EArchStart; EPoll; ECrash]]
+    = [VAbort; VFalse; VTrue; VFalse].
 Proof. vm_compute. repeat split; reflexivity. Qed.
